@@ -296,13 +296,22 @@ func (p *Parser) parseBetweenExpression(left Expression) Expression {
 }
 
 func (p *Parser) parseInExpression(left Expression) Expression {
-	p.nextToken()
+	// IN is followed by a parenthesized, non-empty list of operands
+	if !p.expectPeek(LPAREN) {
+		return nil
+	}
 
-	return &InExpression{
+	expression := &InExpression{
 		Token: p.curToken,
 		Left:  left,
 		Range: p.parseCallArguments(),
 	}
+
+	if expression.Range != nil && len(expression.Range) == 0 {
+		p.peekError(IDENT)
+	}
+
+	return expression
 }
 
 func (p *Parser) parseCallArguments() []Expression {
